@@ -270,6 +270,11 @@ H("C17", "cdbc", _D, "quick", "C17.b header the writer emits is accepted by the 
   ["writer::DbcWriter::write_records", "writer::DbcWriter::build_string_block", "header::DbcHeader::parse", "schema::Schema::validate", "schema::Schema::record_size"],
   "schema of 1/2/3 fields, each field type symbolic, each scalar or array of 1..3 (symbolic)", "<= 3 fields, array sizes <= 3, zero records",
   stubs=[FMT, RS], timeout=2400)
+H("C17", "cdbc", _D, "thorough", "C17.c strings survive write->parse (incl. a string referenced twice), each string stored once, size law with a string block",
+  ["c17c_strings_roundtrip_with_duplicate"], ["writer::DbcWriter::{write_records,build_string_block,write_record,write_value}", "parser::DbcParser::{parse_bytes,with_schema,parse_records}",
+   "parser::RecordSet::get_string", "stringblock::StringBlock::{parse,get_string}"],
+  "three records with one string field referencing the concrete strings a, a, b", "3 records, 1 string field (HashMap keys must be concrete)",
+  stubs=[FMT, RS], timeout=2400)
 H("C17", "cdbc", _D, "quick", "canary", ["c17_canary"], ["field_parser::parse_field_value"], "vacuity twin", "-", expect="canary", stubs=[FMT, RS])
 H("C05", "cdbc", _D, "quick", "C05.dbc header parsers and string lookups are total (no panic/overflow), derived offsets do not overflow",
   ["c05_dbc_header_total", "c05_dbc_wdb2_header_total", "c05_dbc_wdb5_header_total", "c05_dbc_string_block_total"],
@@ -324,6 +329,8 @@ H("C02", "mpq", _BL, "quick", "C02.c file key == key of the format; flag and met
   assumes=["name contains no path separator (known finding KF-C02-key-path excluded)"], stubs=[FMT])
 H("C02", "mpq", _BL, "quick", "C02.c witness: key of a file in a directory", ["c02c_file_key_path_witness"],
   ["builder::ArchiveBuilder::calculate_file_key"], "concrete name d\\f", "-", stubs=[FMT], expect="witness:KF-C02-key-path")
+H("C02", "mpq", _BL, "quick", "C02.c witness: trailing bytes of an encrypted block", ["c02c_trailing_bytes_witness"],
+  ["builder::ArchiveBuilder::encrypt_data"], "concrete 5-byte block", "-", stubs=[FMT], expect="witness:KF-C02-trailing-bytes")
 H("C02", "mpq", _BL, "quick", "canary", ["c02_canary"], ["builder::ArchiveBuilder::write_header"], "vacuity twin", "-", expect="canary", stubs=[FMT])
 
 # =============================================================================== C10
